@@ -54,7 +54,7 @@ class YMD:
         return 0
 
     def __eq__(self, o):
-        return isinstance(o, _YearMonthDay) and _cmp(self, o) == 0
+        return hasattr(o, "_year") and not hasattr(o, "_calendar_ordinal") and _cmp(self, o) == 0
 
     def __ne__(self, o):
         return not (self == o)
@@ -92,7 +92,7 @@ class YMDC:
         return YMD(self._y, self._m, self._d)
 
     def __eq__(self, o):
-        return isinstance(o, _YearMonthDayCalendar) and _cmp(self, o) == 0 and int(self._o) == int(o._calendar_ordinal)
+        return hasattr(o, "_calendar_ordinal") and _cmp(self, o) == 0 and int(self._o) == int(o._calendar_ordinal)
 
     def equals(self, o):
         return self == o
